@@ -35,7 +35,7 @@ def run(tier, seed):
                             invariants=INV, tag="DLOG", timeout=3000)
         ac.replay(ctx, r.exports["DLOG"], cmd="dlog-replay", sig_prefix="replay:dlog")
     return ctx.finish(
-        rule="One TLC state = one Datalog program: 3 candidate facts over two typed constants (14 pairs covering every term type and look-alike values) "
+        rule="One TLC state = one Datalog program: 3 candidate facts over two typed constants (19 pairs covering every term type, look-alike values and collections differing in one element or one nested element) "
              "with origin sets from a menu (or absent), a rule from 12 templates (join, repeated variable, body constant, recursion, transitive closure, "
              "empty body, guard, unbound head variable, ground) with any owner and trusted set, and optionally a second recursive rule. The spec computes "
              "the least fixpoint with provenance, checks it is a supported fixpoint respecting trust, and the per-pass level sizes. Replay: the program is "
